@@ -39,6 +39,14 @@ def run_case(case):
     mk = case['market']
     reserve = case.get('reserve')
 
+    def before_run(r_):
+        if reserve:
+            add_reserve(r_)
+        if case.get('preflight'):
+            # a pre-flight look at the session's clock (count the events, find the first and last) before run()
+            n_ev = len(list(r_.bt.sim_engine))
+            r_.preflight_events = n_ev
+
     def add_reserve(r_):
         # the session's brokerage account also holds a second, funded portfolio that never trades: it belongs to
         # the account equity the curve reports
@@ -47,7 +55,7 @@ def run_case(case):
         b.create_portfolio('reserve', name='Reserve')
         b.subscribe_funds_to_portfolio('reserve', reserve)
     with market.csv_dir(mk) as path:
-        r = session.run_session(cfg, path, list(mk), hooks=add_reserve if reserve else None)
+        r = session.run_session(cfg, path, list(mk), hooks=before_run)
     if r.error:
         raise Violation('session failed with %s: %s at broker time %s' % r.error)
     d0, d1 = cal.date3(cfg['start']), cal.date3(cfg['end'])
@@ -69,6 +77,10 @@ def run_case(case):
         raise Violation('allocation rows dated %s, expected %s' % ([str(x) for x in adates][:6], [str(x) for x in exp_calls][:6]))
     # each recorded row carries the weights the alpha model returned at that rebalance (zero for every other asset)
     for row, said in zip(r.allocations, r.alpha.outputs):
+        for a in said:
+            if a not in row:
+                raise Violation('allocation row of %s has no entry for %s, to which the alpha model gave %r at that '
+                                'rebalance' % (row['Date'], a, said[a]))
         for a, w in row.items():
             if a == 'Date':
                 continue
@@ -133,6 +145,8 @@ def run_case(case):
     cls += [cfg['rebalance'], cfg['alpha']['kind'], cfg['universe']['kind']]
     if reserve:
         cls.append('account_with_second_funded_portfolio')
+    if case.get('preflight'):
+        cls.append('session_clock_listed_before_run')
     before = [x for x in sched if x in clock and burn is not None and x < burn]
     if burn is not None and before:
         cls.append('instants_skipped_by_burn_in')
@@ -148,7 +162,8 @@ def run_case(case):
 @st.composite
 def cases(draw):
     sched = draw(sessgen.schedule())
-    tods = ((14, 30, 0),) if sched['rebalance'] == 'buy_and_hold' else (
+    # (a buy-and-hold session whose start is not a clock event never rebalances: its single instant is never reached)
+    tods = ((14, 30, 0), (14, 30, 0), (0, 0, 0), (21, 0, 0), (9, 0, 0)) if sched['rebalance'] == 'buy_and_hold' else (
         (0, 0, 0), (14, 30, 0), (9, 0, 0), (14, 29, 59), (3, 17, 5))
     d0, d1, start, end = draw(sessgen.window(min_days=3, max_days=70, start_tods=tods))
     if draw(st.sampled_from([False] * 15 + [True])):           # weekend-only range
@@ -161,7 +176,8 @@ def cases(draw):
     cfg, lab = draw(sessgen.full_config(names, start, end, alpha_kinds=('fixed', 'single', 'single', 'cycle'), sched=sched,
                                         entry_kinds=('before', 'start', 'on', 'after1m', 'mid', 'after_end', 'none')))
     return {'cfg': cfg, 'market': mk, 'labels': lab,
-            'reserve': draw(st.sampled_from([None, None, None, 250000.0, 0.5]))}
+            'reserve': draw(st.sampled_from([None, None, None, 250000.0, 0.5])),
+            'preflight': draw(st.sampled_from([False, False, True]))}
 
 
 PARTS = [
